@@ -3,6 +3,7 @@ import TF.Drv.Proto
 import TF.Model.MmrAcc
 import TF.Model.HashTip5
 import TF.Gen.MmrPeaksLoops
+import TF.Gen.MmrProofLoops
 /-!
 driver handler for the family `mmra` (C11): a whole accumulator history is one op line
 
@@ -59,11 +60,37 @@ def genMutateAgrees (a : Acc Dg) (i : Nat) (l : Dg) (p : List Dg) : Bool :=
     then TF.Gen.Loops.mmr_calculate_new_peaks_from_leaf_mutation H [] a.peaks a.leaf_count l i p else none
   g == calculate_new_peaks_from_leaf_mutation H a.peaks a.leaf_count l i p
 
+/-! BT7: the accumulator methods **regenerated from source** (`TF/Gen/MmrProofLoops.lean`, tools/rs2lean_mmr.py; an accumulator
+is the pair `(leaf_count, peaks)`) evaluated next to the hand model on every append / mutation / `new_from_leafs` and on every
+printed state (`num_leafs`, `peaks`, `is_empty`, `bag_peaks`) -/
+def asPair (a : Acc Dg) : Nat × List Dg := (a.leaf_count, a.peaks)
+
+def genAccAppendAgrees (a : Acc Dg) (l : Dg) : Bool :=
+  let g := if TF.Gen.Loops.mmra_append_ok H [] (asPair a) l then TF.Gen.Loops.mmra_append H [] (asPair a) l else none
+  g == (append H a l).map fun r => (r.2, asPair r.1)
+
+def genAccMutateAgrees (a : Acc Dg) (i : Nat) (l : Dg) (p : List Dg) : Bool :=
+  let g := if TF.Gen.Loops.mmra_mutate_leaf_ok H [] (asPair a) (i, l, p)
+    then TF.Gen.Loops.mmra_mutate_leaf H [] (asPair a) (i, l, p) else none
+  g == (mutate_leaf H a { leaf_index := i, new_leaf := l, auth := p }).map asPair
+
+def genNewFromLeafsAgrees (ls : List Dg) : Bool :=
+  let g := if TF.Gen.Loops.mmra_new_from_leafs_ok H [] ls then TF.Gen.Loops.mmra_new_from_leafs H [] ls else none
+  g == (new_from_leafs H ls).map asPair
+
+def genAccessorsAgree (a : Acc Dg) : Bool :=
+  TF.Gen.Loops.mmra_num_leafs H [] (asPair a) == a.num_leafs && TF.Gen.Loops.mmra_peaks H [] (asPair a) == a.peaks &&
+  TF.Gen.Loops.mmra_is_empty H [] (asPair a) == a.is_empty &&
+  TF.Gen.Loops.mmra_bag_peaks_ok H [] hashZero (asPair a) &&
+  TF.Gen.Loops.mmra_bag_peaks H [] hashZero (asPair a) == a.bag_peaks H hashZero
+
 /-- one step: new state and the text of the record -/
 def step (a : Acc Dg) : Arg → Option (Acc Dg × String)
   | .tup [.sym "a", leaf] => do
       let l ← leaf.natList?
       if !genAppendAgrees a l then pure (a, "GEN-MISMATCH calculate_new_peaks_from_append") else
+      if !genAccAppendAgrees a l then pure (a, "GEN-MISMATCH MmrAccumulator::append") else
+      if !genAccessorsAgree a then pure (a, "GEN-MISMATCH MmrAccumulator accessors") else
       match append H a l with
       | some (a', ap) => pure (a', s!"{fmtState a'}{fmtListList ap}")
       | none => pure (a, "panic")
@@ -71,6 +98,7 @@ def step (a : Acc Dg) : Arg → Option (Acc Dg × String)
       let l ← leaf.natList?
       let p ← ap.natListList?
       if !genMutateAgrees a i l p then pure (a, "GEN-MISMATCH calculate_new_peaks_from_leaf_mutation") else
+      if !genAccMutateAgrees a i l p then pure (a, "GEN-MISMATCH MmrAccumulator::mutate_leaf") else
       match mutate_leaf H a { leaf_index := i, new_leaf := l, auth := p } with
       | some a' => pure (a', fmtState a')
       | none => pure (a, "panic")
@@ -95,6 +123,7 @@ def start? : Arg → Option (Option (Acc Dg))
   | .sym "new" => some (some { leaf_count := 0, peaks := [] })
   | .tup [.sym "from", leafs] => do
       let ls ← leafs.natListList?
+      if !genNewFromLeafsAgrees ls then none else      -- BT7: reported as a protocol error of the model (a disagreement)
       pure (new_from_leafs H ls)
   | .tup [.sym "init", .nat c, peaks] => do
       let ps ← peaks.natListList?
